@@ -3074,6 +3074,7 @@ impl<K, V, S> HashMap<K, V, S> {
     /// Returns `(table length, size_ctl, count, transfer_index, next_table is null)`.
     #[doc(hidden)]
     pub fn __verif_inspect(&self, guard: &Guard<'_>) -> (usize, isize, isize, isize, bool) {
+        self.check_guard(guard);
         let table = self.table.load(Ordering::SeqCst, guard);
         let len = if table.is_null() {
             0
